@@ -252,11 +252,12 @@ Print Assumptions C09_stream_partial.
 
 (* the invariant behind it, one operation at a time: a consistent segment moves the delivery
    point from pos to pos' >= pos and hands over exactly S[pos, pos') *)
-Theorem C09_stream_step : forall S i pos st h,
-  zlen S < 1073741823 -> inv S i pos st -> seg_hop h = true -> hop_okb S h = true ->
+Theorem C09_stream_step : forall c, c_keep c = [] -> forall S i pos st h,
+  c_mpc c <= 0 /\ c_mt c <= 0 ->
+  zlen S < 1073741823 -> inv c S i pos st -> seg_hop h = true -> hop_okb S h = true ->
   exists st' ev pos', step fixedv st (op_of S i h) = (st', ev, false) /\
     s_rev_seen st' = s_rev_seen st /\
-    pos <= pos' /\ inv S i pos' st' /\ ev_new ev = sub S pos (pos' - pos) /\ ev_clean ev.
+    pos <= pos' /\ inv c S i pos' st' /\ ev_new ev = sub S pos (pos' - pos) /\ ev_clean ev.
 Proof. exact step_hop. Qed.
 Print Assumptions C09_stream_step.
 
@@ -269,47 +270,49 @@ Example C09_stream_partial_nonvacuous :
   delivered (run_hist fixedv w_S 4294967293 (HSyn 2 1 :: hs)) = w_S.
 Proof. vm_compute. repeat split; reflexivity. Qed.
 
-(* ------------------------------------------------------------------ C09_stream_partial, with flushes *)
+(* ------------------------------------------------------------------ C09_stream_partial, with flushes and limits *)
 
 (* abs_evs S pos evs pos': reading the events from delivery point pos, every ScatterGather has no
    saved bytes, a skip >= 0, and carries exactly S[pos+skip, pos+skip+len) — the announced skip
    stands for that many bytes of S —, and pos' is the delivery point at the end; no panic event.
 
-   For every stream shorter than 2^30 - 1, every ISN, every history: SYN first, then consistent
+   For every stream shorter than 2^30 - 1, every ISN, any page limits (MaxBufferedPagesPerConnection,
+   MaxBufferedPagesTotal, possibly changed on the way), every history: SYN first, then consistent
    segments in any order (duplicates, overlaps, repeated SYN, FIN, RST) interleaved with
    FlushWithOptions{T,TC} calls whose TC is not later than the first packet (they release data
-   beyond gaps but cannot close the connection), optionally FlushAll at the end; no page limit, no
-   KeepFrom.  The run does not stop, the events of the whole run satisfy abs_evs from offset 0 —
-   in order, nothing duplicated, altered or invented, every gap that is passed over is announced
-   with its exact length —, and a step that is a segment releases nothing beyond a gap (skip 0).
-   Missing for the full statement: page limits, KeepFrom, flushes that close (FlushCloseOlderThan
-   with a late time) followed by further traffic, the start-never-seen regime, that a skipped range
-   contains no byte that had arrived, and completion/progress. *)
-Theorem C09_stream_partial_flush : forall S i n0 ts0 mids tail,
+   beyond gaps but cannot close the connection), optionally FlushAll at the end; no KeepFrom.
+   The run does not stop and the events of the whole run satisfy abs_evs from offset 0: in order,
+   nothing duplicated, altered or invented, every gap that is passed over (by a flush or by a page
+   limit) is announced with its exact length.  This includes the path of the FIN/limit defect of
+   the unchanged tree (C09_fin_limit_original_refuted).
+   Missing for the full statement: KeepFrom, flushes that close (FlushCloseOlderThan with a late
+   time) followed by further traffic, the start-never-seen regime, that a skipped range contains no
+   byte that had arrived, and completion/progress. *)
+Theorem C09_stream_partial_flush : forall S i a b n0 ts0 mids tail,
   zlen S < 1073741823 -> 0 <= n0 <= zlen S -> tail = [] \/ tail = [HFlushAll] ->
   forallb (mid_hop ts0) mids = true -> forallb (hop_okb S) mids = true ->
-  let hs := HSyn n0 ts0 :: mids ++ tail in
+  let hs := HCfg a b :: HSyn n0 ts0 :: mids ++ tail in
   let tr := run_hist fixedv S i hs in
-  length tr = length hs /\
-  (exists pos, abs_evs S 0 (concat (map fst tr)) pos) /\ clean_at_segs hs tr.
+  length tr = length hs /\ exists pos, abs_evs S 0 (concat (map fst tr)) pos.
 Proof. exact flush_partial. Qed.
 Print Assumptions C09_stream_partial_flush.
 
 (* skipFlush: the first queued page, at offset o1 > pos, is handed over with skip = o1 - pos *)
-Theorem C09_skip_flush : forall S i pos rc st,
-  zlen S < 1073741823 -> inv2 S i pos rc st -> h_closed (s_half st) = false ->
+Theorem C09_skip_flush : forall c, c_keep c = [] -> forall S i pos rc st,
+  zlen S < 1073741823 -> inv2 c S i pos rc st -> h_closed (s_half st) = false ->
   exists st' ev pos', skip_flush fixedv st = (st', ev, false) /\
     s_rev_seen st' = s_rev_seen st /\ abs_evs S pos ev pos' /\
-    (inv2 S i pos' rc st' \/ (rc = true /\ s_exists st' = false /\ h_closed (s_half st') = true)).
+    (inv2 c S i pos' rc st' \/ (rc = true /\ s_exists st' = false /\ h_closed (s_half st') = true)).
 Proof. exact skip_flush_ok. Qed.
 Print Assumptions C09_skip_flush.
 
-(* non-vacuity: across the wrap, a gap of two bytes released by a flush (skip 2), the rest by FlushAll *)
+(* non-vacuity: across the wrap, MaxBufferedPagesTotal = 2: the queued FIN segment triggers the
+   limit flush of [4,6) (skip 4 — and nextSeq is NOT bumped for the FIN), then a flush, then FlushAll *)
 Example C09_stream_partial_flush_nonvacuous :
-  let mids := [HData 4 2 false false 2; HData 0 2 false false 3; HFlush 10 1; HData 8 2 true false 4] in
+  let mids := [HData 4 2 false false 2; HData 8 2 true false 3; HData 0 2 false false 4; HFlush 10 1] in
   forallb (mid_hop 1) mids = true /\ forallb (hop_okb w_S) mids = true /\
   map (fun e => match e with ESG _ b _ _ k _ _ => (k, b) | _ => (-7, []) end)
       (filter (fun e => match e with ESG _ _ _ _ _ _ _ => true | _ => false end)
-              (concat (map fst (run_hist fixedv w_S 4294967293 (HSyn 0 1 :: mids ++ [HFlushAll])))))
-  = [(0, []); (0, [0; 17]); (2, [68; 85]); (2, [136; 153])].
+              (concat (map fst (run_hist fixedv w_S 4294967293 (HCfg 0 2 :: HSyn 0 1 :: mids ++ [HFlushAll])))))
+  = [(0, []); (4, [68; 85]); (2, [136; 153])].
 Proof. vm_compute. repeat split; reflexivity. Qed.
